@@ -33,16 +33,18 @@ def datasets(T):
     return [("a", base1), ("b", base2), ("equal_means", base3)]
 
 
-def make_model(X, labels, K):
+def make_model(X, labels, K, biased=False):
     from fast_ticc.containers import arguments, model_state
     a = arguments.UserArguments(sparsity_weight=0.1, iteration_limit=1, label_switching_cost=1.0,
                                 min_cluster_size=1, min_meaningful_covariance=0, num_clusters=K,
-                                num_processors=1, window_size=1, biased_covariance=False)
+                                num_processors=1, window_size=1, biased_covariance=biased)
     m = model_state.ModelState.empty_model(a, X)
     m.point_labels = list(labels)
     for k, c in enumerate(m.clusters):
         idx = [i for i, l in enumerate(labels) if l == k]
         c.stacked_data_mean = X[idx].mean(axis=0)
+        if len(idx) >= 2:
+            c.empirical_covariance = np.atleast_2d(np.cov(X[idx].T, bias=biased))
     return m
 
 
@@ -95,6 +97,18 @@ def work(task):
                 acc.nontrivial += 1
                 if res is not None:
                     acc.fail(case, res[0], res[1])
+                # the index is scale invariant: the same data in units of 2^-17 (exact scaling) and with the
+                # biased-estimator option set must report the same value
+                if not any(shift) and dn != "equal_means":
+                    for (tag, Xs, biased) in (("scaled by 2^-17", X * 2.0 ** -17, False), ("biased_covariance=True", X, True)):
+                        acc.n += 1
+                        try:
+                            g2 = float(cluster_metrics.calinski_harabasz_index(Xs, make_model(Xs, labels, K, biased)))
+                        except Exception as e:
+                            acc.fail(dict(case, variant=tag), f"{tag}: raised {type(e).__name__}: {e}")
+                            continue
+                        if abs(g2 - got) > 1e-9 * abs(got) + 1e-12:
+                            acc.fail(dict(case, variant=tag), f"{tag}: index {g2!r}, plain data gives {got!r}")
                 # translation invariance against the unshifted data set (same labels)
                 if any(shift):
                     base = float(cluster_metrics.calinski_harabasz_index(X0, make_model(X0, labels, K)))
@@ -133,7 +147,7 @@ def run(ctx):
         "(a) every labelling of T' in 4..6 (thorough 8) windows into K in {2,3} non-empty clusters x data sets "
         "{a (3 sensors), b (2 sensors), equal column means} x per-sensor translations over {0,1,100} (all 27 for a, "
         "single-sensor for the others) and single-sensor translations by 1e6 and 2.5e8: reported == definition with the per-column centroid (1e-9 relative) and "
-        "unchanged under translation; a mismatch that equals the same formula with the scalar mean of all entries "
+        "unchanged under translation, under exact rescaling by 2^-17 and with the biased-estimator option set; a mismatch that equals the same formula with the scalar mean of all entries "
         "is the listed known finding, anything else a violation. (b) every converged enumerated main-loop run with "
         "all clusters non-empty. non-trivial = cases with non-zero within-cluster dispersion")
     ctx.cov["rule"] += (" Plus control-skeleton runs: the main loop with the relabel phase's output scripted, every label "
